@@ -551,7 +551,9 @@ static void callRes(long id, const char* fn, int lvl, err_t rc, int same)
 	if (same >= 0) jBool("same", same);
 	jEnd();
 }
-static void setName(char dst[13], const octet* src, size_t n) { memset(dst, 0, 13); memcpy(dst, src, n < 12 ? n : 12); }
+/* btok.h describes authority / holder as STRINGS of 8..12 characters: the octets behind the terminating zero are arbitrary
+   (an object that held a longer name before) */
+static void setName(char dst[13], const octet* src, size_t n) { size_t m = n < 12 ? n : 12; memset(dst, 0xC3, 13); memcpy(dst, src, m); dst[m] = 0; }
 static int sameContent(const btok_cvc_t* x, const btok_cvc_t* y)
 {
 	return strcmp(x->authority, y->authority) == 0 && strcmp(x->holder, y->holder) == 0 && x->pubkey_len == y->pubkey_len &&
@@ -681,6 +683,8 @@ int cvcMain(int argc, char** argv)
 			kp_t root, leaf; btok_cvc_t c0[1], c1[1], got[1]; octet* cert0; octet* cert1; size_t n0 = 0, n1 = 0;
 			kpGen(&root, Ls[li]); kpGen(&leaf, Ls[(li + (size_t)rep) % 4]);
 			memset(c0, 0, sizeof c0); memset(c1, 0, sizeof c1);
+			memset(c0->authority, 0x5C, sizeof(c0->authority)); memset(c0->holder, 0x6D, sizeof(c0->holder));
+			memset(c1->authority, 0x7E, sizeof(c1->authority)); memset(c1->holder, 0x4B, sizeof(c1->holder));
 			strcpy(c0->authority, "BYCA0000"); strcpy(c0->holder, "BYCA0000");
 			memcpy(c0->from, "\x02\x00\x00\x01\x00\x01", 6); memcpy(c0->until, "\x03\x09\x01\x02\x03\x01", 6);
 			strcpy(c1->authority, "BYCA0000"); strcpy(c1->holder, rep == 1 ? "590082394654" : "BYCA1000");
